@@ -292,6 +292,23 @@ def span_arithmetic(ctx, rule):
                     if pe is not None and any(isinstance(x, tuple) and x and x[0] == "call" and x[1].endswith("Iterator::enumerate")
                                               for x in S.walk(pe)):
                         ok = True
+    if not ok:
+        # the same lookup written as a loop: a test `m.offset == position of the word` whose true side reaches the span arithmetic
+        cfg = ctx.cfg(hb)
+        span_blocks = set(x[0] for x in starts + ends)
+        for bi, t in hb.iter_terms():
+            bt = U.bool_switch_targets(t)
+            if not bt:
+                continue
+            e = S.strip_refs(sy.operand(t["discr"]))
+            if e[0] == "binop" and e[1] == "Eq":
+                l, r = S.strip_refs(e[2]), S.strip_refs(e[3])
+                for a_, b_ in ((l, r), (r, l)):
+                    if a_[0] == "field" and a_[2] == "offset" and \
+                            any(isinstance(x, tuple) and x and x[0] == "call" and x[1].endswith("Iterator::enumerate") for x in S.walk(b_)) and \
+                            not any(isinstance(x, tuple) and x and x[0] == "field" and x[2] == "offset" for x in S.walk(b_)):
+                        if U.branch_reaches(cfg, bi, bt[1], span_blocks):
+                            ok = True
     if ok:
         ctx.ok(rule, key, hb.where(), "the match of a word is looked up by `m.offset == position of the word`", nontrivial=True)
     else:
